@@ -209,7 +209,7 @@ func specMin(a int, b int) int {
 
 //@ contract writeIP
 //@   requires lexOK(b) && ipOK(ip)
-//@   requires ref(ip) != ref(b.Buffer.data) && ref(ip) != ref(b.Buffer) && ref(ip) != ref(b)
+//@   requires ip == nil || (ref(ip) != ref(b.Buffer.data) && ref(ip) != ref(b.Buffer))
 //@   modifies b.Buffer, b.Buffer.data[len(b.Buffer.data):cap(b.Buffer.data)]
 //@   ensures lexGrown(b)
 //@   ensures string(b.Buffer.data) == old(string(b.Buffer.data)) + specIP4(string(ip))
@@ -277,3 +277,10 @@ func specHeaderV4(op int, htype int, hlen int, hops int, xid string, secs int, f
 //@   ensures[hdr-sname] string(result)[44:108] == specFixed(d.ServerHostName, 63, 64)
 //@   ensures[hdr-file] string(result)[108:236] == specFixed(d.BootFileName, 127, 128)
 //@   ensures[hdr-cookie] string(result)[236:240] == "\x63\x82\x53\x63"
+
+//@ contract (net.IP).To16
+//@   trusted
+//@   ensures result == nil || len(result) == 16
+//@   ensures len(ip) == 16 ==> result == ip
+//@   ensures len(ip) != 4 && len(ip) != 16 ==> result == nil
+//@   ensures result != nil && len(ip) != 16 ==> fresh(result)
